@@ -459,10 +459,14 @@ def run(chk, only=None):
                             chk.evaluations += 1
                             nparts += 1
                             chk.nontrivial.add(f"{fam}.{mname}.{cname_}/o{order}/{part}")
-                            if st is None or st[0] == "not-encodable":
+                            if st is None:
                                 chk.discharged += 1
-                                if st is not None:
-                                    chk.section("parts_not_encodable", **{f"{key}/o{order}/{part}": st[1]})
+                                continue
+                            if st[0] == "not-encodable":
+                                # e.g. int()/float() of a symbolic quantity inside a kernel: this part is not decided -- said, not skipped
+                                # (no part of the pinned tree needs it, in either tier)
+                                chk.section("parts_not_encodable", **{f"{key}/o{order}/{part}": st[1]})
+                                chk.inconclusive_note(f"{key}/o{order}/{part}: not encodable ({st[1]})")
                                 continue
                             e = st[1]
                             if is_clear_rejection(e):
